@@ -59,4 +59,5 @@ f89ce52 C13 C10
 3f75171 C10
 bc0d713 C10
 9500a73 C14
+894c061 C14
 LIST
